@@ -277,5 +277,66 @@ theorem add_keeps_shapes_unique {s s' : Snap} {n syn : Node} {f2o : SlotMap} {da
   subst hxy
   exact hnot hx
 
+/-! ## the children of the classes from before stay canonical -/
+
+theorem isAlive_lt {s : Snap} {j : Nat} (h : isAlive s j = true) : j < s.uf.length := by
+  unfold isAlive at h
+  rcases Nat.lt_or_ge j s.uf.length with hl | hl
+  · exact hl
+  · rw [List.getElem?_eq_none hl] at h; cases h
+
+/-- a class that is alive before a modelled insertion is alive after it -/
+theorem alive_survives_add {s s' : Snap} {n syn : Node} {f2o : SlotMap} {data : String} {a : AppId}
+    (h : addNew s n f2o syn data = some (s', a)) {j : Nat} (hj : isAlive s j = true) : isAlive s' j = true := by
+  have hlt := isAlive_lt hj
+  unfold isAlive at hj ⊢
+  rw [addNew_uf h, List.getElem?_append_left hlt]
+  exact hj
+
+/-- every class from before keeps canonical children: each child invocation stored in one of its shapes still points to a live class
+whose slot list is the invocation's key list -/
+theorem add_keeps_children_old {s s' : Snap} {n syn : Node} {f2o : SlotMap} {data : String} {a : AppId}
+    (h : addNew s n f2o syn data = some (s', a)) {c : SClass} (hc : childrenOK s c = true) : childrenOK s' c = true := by
+  unfold childrenOK at hc ⊢
+  simp only [List.all_eq_true, Bool.and_eq_true] at hc ⊢
+  intro e he b hb
+  obtain ⟨⟨halive, hcls⟩, hbij⟩ := hc e he b hb
+  have hlt := isAlive_lt halive
+  refine ⟨⟨alive_survives_add h halive, ?_⟩, hbij⟩
+  rw [cls_survives_add h (Nat.ne_of_lt hlt)]
+  exact hcls
+
+/-- the classes after a modelled insertion are the classes before, in their order, followed by one new class -/
+theorem addNew_classes {s s' : Snap} {n syn : Node} {f2o : SlotMap} {data : String} {a : AppId}
+    (hok : AddOK s) (h : addNew s n f2o syn data = some (s', a)) : ∃ cnew, s'.classes = s.classes ++ [cnew] := by
+  obtain ⟨n1, perms, hs, _⟩ := addNew_stored h
+  refine ⟨SClass.mk s.uf.length (keys f2o) [Node.weakShape n1]
+      (Grp.generators (addAll (Grp.mk (identity (keys f2o)) []) perms)) syn data, ?_⟩
+  rw [hs]
+  unfold setNew allocClass
+  simp only [List.map_append, List.map_cons, List.map_nil, beq_self_eq_true, if_true]
+  rw [map_id_of_ne _ _ _ (addOK_ids hok)]
+
+theorem leaderOK_survives_add {s s' : Snap} {n syn : Node} {f2o : SlotMap} {data : String} {a : AppId}
+    (hok : AddOK s) (h : addNew s n f2o syn data = some (s', a)) {c : SClass} (hc : c ∈ s.classes)
+    (hl : leaderOK s c = true) : leaderOK s' c = true := by
+  have hlt : c.id < s.uf.length := hok.2 c hc
+  have hentry : s'.uf[c.id]? = s.uf[c.id]? := by rw [addNew_uf h, List.getElem?_append_left hlt]
+  unfold leaderOK isAlive at hl ⊢
+  rw [hentry]
+  exact hl
+
+/-- **every class from before satisfies the per-class part of `checkInv` after a modelled insertion** (and is still a class) -/
+theorem add_keeps_old_class_inv {s s' : Snap} {n syn : Node} {f2o : SlotMap} {data : String} {a : AppId}
+    (hok : AddOK s) (h : addNew s n f2o syn data = some (s', a)) {c : SClass} (hc : c ∈ s.classes)
+    (hinv : (sortedStrict c.slots && leaderOK s c && gensOK c && c.nodes.all (nodeOK c) && childrenOK s c) = true) :
+    c ∈ s'.classes ∧
+    (sortedStrict c.slots && leaderOK s' c && gensOK c && c.nodes.all (nodeOK c) && childrenOK s' c) = true := by
+  obtain ⟨cnew, hcl⟩ := addNew_classes hok h
+  simp only [Bool.and_eq_true] at hinv ⊢
+  obtain ⟨⟨⟨⟨h1, h2⟩, h3⟩, h4⟩, h5⟩ := hinv
+  refine ⟨?_, ⟨⟨⟨h1, leaderOK_survives_add hok h hc h2⟩, h3⟩, h4⟩, add_keeps_children_old h h5⟩
+  rw [hcl]; exact List.mem_append_left _ hc
+
 end Snap
 end SV
